@@ -3,6 +3,7 @@ CONSTANTS
   MaxSteps <- NoBound
   Kinds = {"select", "pollfix", "epoll"}
   RegObj = {1, 2, 3}
+  IntCapable = {3}
   Monitor = TRUE
 INVARIANT TypeOK
 INVARIANT Conforms
